@@ -422,3 +422,30 @@ def helper_calls( tree, ignore_calls=() ):
     for name, f in defs.items():
         out['call:' + name] = make( f )
     return out
+
+
+def method_calls( cdef, base_env, receiver='self', ignore_calls=() ):
+    """{ '<receiver>.<name>': callable } for the methods of a class whose body is a decision fragment: a computation a method moved into a
+    helper of its class ( self.span( key ) ) is evaluated where it is called, on the caller's environment `base_env` ( the same self.<field>
+    stand-ins ) plus the helper's parameters.  Raises ( errors of the evaluated operations ) propagate; the callable raises NoFold otherwise."""
+    out = {}
+    def make( f ):
+        static = any( isinstance( d, ast.Name ) and d.id == 'staticmethod' for d in f.decorator_list )
+        def call( *args ):
+            params = [ a.arg for a in f.args.args ]
+            if not static and params:
+                params = params[1:]
+            if len( args ) != len( params ) or f.args.vararg or f.args.kwarg:
+                raise NoFold( 'method %s: arguments' % f.name )
+            env = dict( base_env ); env.update( out ); env.update( zip( params, args ))
+            r = run_block( f.body, env, ignore_calls=ignore_calls )
+            if r.kind == 'return':
+                return r.value
+            if r.kind == 'fall':
+                return None
+            raise NoFold( 'method %s ends by %s' % ( f.name, r.kind ))
+        return call
+    for f in cdef.body:
+        if isinstance( f, ast.FunctionDef ) and not f.name.startswith( '__' ):
+            out[receiver + '.' + f.name] = make( f )
+    return out
